@@ -12,11 +12,21 @@
     one transmission per line with r=1 for LINES / one with r=rows for WHOLE; iterm2:
     size= equals the decoded length, width/height/inline/preserveAspectRatio, payload
     decodes to the expected pixels or is the untouched source file under the documented
-    conditions.  Payload contents never enter Coq: only lengths and flags. *)
+    conditions.  Payload contents never enter Coq: only lengths and flags.
+
+    Round 4: a case carries the method SET on the image / class and the per-render
+    OVERRIDE as two independent options, and the list of cell sizes the environment
+    answered to the successive get_cell_size() calls made inside _render_image (the
+    environment may change during the render).  The model side is the render plan of
+    model/GfxPlan.v fed with exactly these answers; it also demands the number of reads
+    the plan makes (single read of the geometry).  The specification side never looks at
+    the cell size: it demands that the output is self-consistent — the documented
+    effective method's shape, s x v x bytes-per-pixel, strips stitching to the pixels at
+    the transmitted resolution — whatever the environment did meanwhile. *)
 From Coq Require Import String.
 From Coq Require Import List ZArith Bool Arith DecimalString.
 Import ListNotations.
-From TI Require Import gen.Consts model.KittyChunks.
+From TI Require Import gen.Consts model.KittyChunks model.GfxPlan.
 
 Local Open Scope nat_scope.
 
@@ -150,7 +160,10 @@ Fixpoint forallb2 {A B} (f : A -> B -> bool) (a : list A) (b : list B) : bool :=
 (* -------------------------------------------------------------- kitty case *)
 
 Record kcase := {
-  kc_method : method;
+  kc_set : option method;    (* set_render_method() on the instance or the class; None = never set *)
+  kc_over : option method;   (* the render's own method argument / +L +W of the format specifier *)
+  kc_reads : list (Z * Z);   (* answers to the get_cell_size() calls made inside _render_image, in order *)
+  kc_other_reads : nat;      (* other environment reads inside _render_image (terminal size, cell ratio) *)
   kc_rw : Z; kc_rh : Z; kc_cw : Z; kc_ch : Z; kc_ow : Z; kc_oh : Z;
   kc_alpha : nat;            (* 0 None, 1 float, 2 colour *)
   kc_opaque : bool;          (* source frame mode in {1, L, RGB, HSV, CMYK} *)
@@ -166,10 +179,26 @@ Record kcase := {
 
 Definition n (z : Z) : nat := Z.to_nat z.
 
+(** the environment of one render, from the observed answers ([dflt] beyond them) *)
+Definition env_of (reads : list (Z * Z)) (dflt : Z * Z) : cell_env :=
+  fun k => let p := nth k reads dflt in (n (fst p), n (snd p)).
+
+(** documented (set_render_method / the [method] style argument): the method given for
+    one render overrides the method set on the instance or class, which overrides the
+    style's default, LINES *)
+Definition spec_method (set over : option method) : method :=
+  match over, set with
+  | Some m, _ => m
+  | None, Some m => m
+  | None, None => Lines
+  end.
+
 Definition kitty_model (c : kcase) : list oitem * list Z :=
-  let m := kc_method c in
   let rw := n (kc_rw c) in let rh := n (kc_rh c) in
-  let (w, h) := pixel_size m rw rh (n (kc_cw c)) (n (kc_ch c)) (n (kc_ow c), n (kc_oh c)) in
+  let p := kitty_plan (kc_set c) (kc_over c) rw rh (env_of (kc_reads c) (kc_cw c, kc_ch c))
+                      (n (kc_ow c), n (kc_oh c)) in
+  let m := kp_branch_method p in
+  let (w, h) := kp_size p in
   let fmt := if out_rgba (kc_alpha c) (kc_opaque c) then kitty_f_rgba else kitty_f_rgb in
   let ctl := kitty_ctrl m fmt w h rw rh (kc_z c) (kc_level c) in
   let lens := group_lens (kc_items c) None in
@@ -193,14 +222,20 @@ Fixpoint zl_eqb (a b : list Z) : bool :=
 Definition kitty_ok_model (c : kcase) : bool :=
   let (items, raws) := kitty_model c in
   oitems_eqb items (kc_items c) && zl_eqb raws (kc_rawlen c) && kc_fill c
+  (* the geometry comes from ONE read of the cell size and no other environment read *)
+  && Nat.eqb (length (kc_reads c))
+             (kp_cell_reads (kitty_plan (kc_set c) (kc_over c) (n (kc_rw c)) (n (kc_rh c))
+                                        (env_of (kc_reads c) (kc_cw c, kc_ch c)) (n (kc_ow c), n (kc_oh c))))
+  && Nat.eqb (kc_other_reads c) 0
   && (negb (kc_level c =? 0)
       || forallb2 (fun l r => Z.eqb l (Z.of_nat (b64len (n r))))
                   (group_lens (kc_items c) None) (kc_rawlen c)).
 
 Definition kitty_ok_spec (c : kcase) : bool :=
   let txs := group_tx (kc_items c) None in
-  let rows := match kc_method c with Lines => 1%Z | _ => kc_rh c end in
-  let ntx := match kc_method c with Lines => n (kc_rh c) | _ => 1 end in
+  let sm := spec_method (kc_set c) (kc_over c) in
+  let rows := match sm with Lines => 1%Z | _ => kc_rh c end in
+  let ntx := match sm with Lines => n (kc_rh c) | _ => 1 end in
   kc_lex c && kc_keep c && kc_pix c
   && Nat.eqb (length txs) ntx
   && forallb2 (spec_tx (kc_rw c) rows (kc_z c)) txs (kc_rawlen c).
@@ -257,7 +292,8 @@ Record orec := {
 }.
 
 Record icase := {
-  ic_method : method;
+  ic_set : option method; ic_over : option method;   (* as kc_set / kc_over *)
+  ic_reads : list (Z * Z); ic_other_reads : nat;     (* as kc_reads / kc_other_reads *)
   ic_rw : Z; ic_rh : Z; ic_cw : Z; ic_ch : Z; ic_ow : Z; ic_oh : Z;
   ic_alpha : nat; ic_mode_class : nat;
   ic_animated : bool; ic_readable : bool; ic_rff : bool; ic_jq : Z; ic_konsole : bool;
@@ -279,11 +315,12 @@ Definition header_string (b : ibranch) (size cols rows : nat) (konsole : bool) :
   hvals_string (removelast (iterm2_header b size cols rows konsole)).
 
 Definition iterm2_ok_model (c : icase) : bool :=
-  let m := ic_method c in
   let rw := n (ic_rw c) in let rh := n (ic_rh c) in
-  let b := iterm2_branch m (ic_animated c) false in
-  let m := iterm2_effective_method m (ic_animated c) false in
-  let (w, h) := pixel_size m rw rh (n (ic_cw c)) (n (ic_ch c)) (n (ic_ow c), n (ic_oh c)) in
+  let p := iterm2_plan (ic_set c) (ic_over c) (ic_animated c) false rw rh
+                       (env_of (ic_reads c) (ic_cw c, ic_ch c)) (n (ic_ow c), n (ic_oh c))
+                       (ic_rff c) (ic_readable c) (ic_mode_class c) (ic_alpha c) in
+  let b := ip_branch p in
+  let (w, h) := ip_size p in
   let rgba := out_rgba (ic_alpha c) (ic_mode_class c =? 0) in
   let jpeg := iterm2_jpeg (ic_jq c) rgba in
   let hdr_ok rows (o : orec) :=
@@ -292,6 +329,9 @@ Definition iterm2_ok_model (c : icase) : bool :=
       Nat.eqb (o_kind o) (if jpeg then 1 else 0) && Z.eqb (o_w o) (Z.of_nat ww)
       && Z.eqb (o_h o) (Z.of_nat hh) && Bool.eqb (o_rgba o) rgba in
   Nat.eqb (ic_nl c) (rh - 1)
+  (* the geometry comes from ONE read of the cell size; the read-from-file gate makes one
+     more when its first four conjuncts hold; no other environment read *)
+  && Nat.eqb (length (ic_reads c)) (ip_cell_reads p) && Nat.eqb (ic_other_reads c) 0
   && match b with
      | BNative =>
          match ic_oscs c with
@@ -301,12 +341,9 @@ Definition iterm2_ok_model (c : icase) : bool :=
          end
      | BLines =>
          Nat.eqb (length (ic_oscs c)) rh && negb (ic_untouched c)
-         && forallb (fun o => hdr_ok 1 o && enc_ok w (cell_height h rh) o) (ic_oscs c)
+         && forallb (fun o => hdr_ok 1 o && enc_ok w (ip_strip_h p) o) (ic_oscs c)
      | BWhole =>
-         let gate := read_from_file_gate (ic_rff c) (ic_animated c) (ic_readable c) m
-                       (n (ic_ow c) * n (ic_oh c))
-                       (rw * n (ic_cw c) * (rh * n (ic_ch c)))
-                       (ic_mode_class c) (ic_alpha c) in
+         let gate := ip_gate p in
          match ic_oscs c with
          | [o] => hdr_ok rh o && Bool.eqb (ic_untouched c) gate && (gate || enc_ok w h o)
          | _ => false
@@ -314,7 +351,8 @@ Definition iterm2_ok_model (c : icase) : bool :=
      end.
 
 Definition iterm2_ok_spec (c : icase) : bool :=
-  let lines := method_eqb (ic_method c) Lines in
+  let sm := spec_method (ic_set c) (ic_over c) in
+  let lines := method_eqb sm Lines in
   let rows := if lines then 1%Z else ic_rh c in
   let cnt := if lines then n (ic_rh c) else 1 in
   let rgba := out_rgba (ic_alpha c) (ic_mode_class c =? 0) in
@@ -330,9 +368,9 @@ Definition iterm2_ok_spec (c : icase) : bool :=
   (* the untouched source file only under the documented conditions *)
   && (negb (ic_untouched c)
       || (ic_readable c
-          && (((method_eqb (ic_method c) Whole || method_eqb (ic_method c) Anim)
+          && (((method_eqb sm Whole || method_eqb sm Anim)
                && ic_rff c && negb (ic_animated c))       (* ANIM on a non-animated image = WHOLE *)
-              || (method_eqb (ic_method c) Anim && ic_animated c))))
+              || (method_eqb sm Anim && ic_animated c))))
   (* re-encoded: PNG, or JPEG only when enabled and the render has no transparency;
      a native animation may be any animated format *)
   && (ic_untouched c
@@ -340,7 +378,7 @@ Definition iterm2_ok_spec (c : icase) : bool :=
             match o_kind o with
             | 0 => true
             | 1 => (0 <=? ic_jq c)%Z && negb rgba
-            | 2 => method_eqb (ic_method c) Anim && ic_animated c
+            | 2 => method_eqb sm Anim && ic_animated c
             | _ => false
             end) (ic_oscs c)).
 
